@@ -117,6 +117,11 @@ def build_harness(variant="A", sanitize="address", extra_cflags=(), exe_sources=
         r = sh(["gcc"] + san + ["-o", os.path.join(outdir, t), objs[ntool0 + ti]] + objs[:nlib] + LIBS)
         if r.returncode != 0:
             return None, r.stdout
+    dso = os.path.join(HARNESS, "dso", "merge_dso.c")
+    if os.path.exists(dso):
+        r = sh(["gcc", "-g", "-O1", "-shared", "-fPIC", "-o", os.path.join(outdir, "merge_dso.so"), dso])
+        if r.returncode != 0:
+            return None, r.stdout
     with open(stamp, "w") as f:
         f.write(want)
     return exe, "built"
@@ -387,7 +392,7 @@ def run_script(exe, lines, model_pre=(), tmpdir=None, real_env=None):
                     var[bind + ".all"] = " ".join(parts[1:])
                 res.append({"req": req, "real": m_reply, "model": m_reply, "side": []})
                 continue
-            r_reply, side = real.ask(req)
+            r_reply, side = real.ask(req, timeout=OP_TIMEOUT.get(toks[0]))
             if toks[0] in REAL_ONLY:
                 if bind is not None:
                     parts = r_reply.split(" ")
@@ -419,7 +424,9 @@ def run_script(exe, lines, model_pre=(), tmpdir=None, real_env=None):
     return res
 
 
-REAL_ONLY = {"sys.info", "codec.sweep32", "crc.cpu", "cz.raw", "cz.direct", "cz.libinfo", "cz.gen", "cz.big", "mt.run", "crc.big"}
+REAL_ONLY = {"sys.info", "codec.sweep32", "crc.cpu", "cz.raw", "cz.direct", "cz.libinfo", "cz.gen", "cz.big", "mt.run", "crc.big", "rv.big4g", "wa.huge"}
+# requests that legitimately take long (multi-gigabyte probes)
+OP_TIMEOUT = {"rv.big4g": 1500, "wa.huge": 1500, "crc.big": 900, "codec.sweep32": 1500, "mt.run": 600, "cz.big": 600}
 MODEL_ONLY = {"enc.raw", "enc.legal", "enc.file", "ctab", "cz.plan", "f.validate", "tp.enum"}
 
 
